@@ -211,6 +211,26 @@ VWithFieldSelf(v, T, key, new) ==
   ELSE IF OptAboveRecAndOptField(T, key) THEN Unspec
   ELSE Ok(VList([k \in 1..Len(v.xs) |-> WithFieldE(v.xs[k], T, key, new)]))
 
+\* ak.with_field(x, vals, new) with ONE value per element of x: left-broadcast -- every record inside element i gets vals[i]
+RECURSIVE WithConstE(_, _, _, _)
+WithConstE(e, T, new, w) ==
+  CASE T.k = "opt" -> IF IsNone(e) THEN VNone ELSE WithConstE(e, T.x, new, w)
+    [] T.k \in {"var", "reg"} -> VList([k \in 1..Len(e.xs) |-> WithConstE(e.xs[k], T.x, new, w)])
+    [] T.k = "rec" ->
+         LET keep == Indexes(e.ks, LAMBDA k : k # new) IN
+         VRec([q \in 1..Len(keep) |-> e.ks[keep[q]]] \o <<new>>, [q \in 1..Len(keep) |-> e.vs[keep[q]]] \o <<w>>)
+NamedRecordAtEnd(T) ==
+  LET RECURSIVE go(_)
+      go(U) == CASE U.k \in {"var", "reg", "opt"} -> go(U.x)
+                 [] U.k = "rec" -> U.tup = 0
+                 [] OTHER -> FALSE
+  IN go(T)
+VWithFieldBroadcast(v, T, new, vals) ==
+  IF ~NamedRecordAtEnd(T) \/ Len(vals) # Len(v.xs) THEN Unspec
+  ELSE LET r == VList([k \in 1..Len(v.xs) |-> WithConstE(v.xs[k], T, new, VInt(vals[k]))]) IN
+       \* (left-broadcasting INTO a fixed-size dimension is refused by this version unless its size is 1)
+       IF HasRegT(T) THEN May(r) ELSE Ok(r)
+
 \* ---------------------------------------------------------------- unflatten(flatten(x, axis=1), num(x, axis=1)) = x   (C05)
 VUnflattenLaw(v, T) == IF T.k \in {"var", "reg"} THEN Ok(v) ELSE Unspec     \* "when x has no missing lists at that level"
 =============================================================================
